@@ -64,6 +64,8 @@ pub struct DevInner {
     pub faults_fired: u32,
     pub chunking: Chunking,
     pub unflushed: u64,
+    /// the kind of the injected errors
+    pub fault_kind: io::ErrorKind,
 }
 
 #[derive(Clone)]
@@ -87,6 +89,7 @@ impl Dev {
             faults_fired: 0,
             chunking: Chunking::Full,
             unflushed: 0,
+            fault_kind: io::ErrorKind::Other,
         })))
     }
     pub fn quiet(data: Vec<u8>) -> Dev {
@@ -122,6 +125,15 @@ impl Dev {
     pub fn fail_at(&self, k: u64, mode: FaultMode) {
         self.0.borrow_mut().fault_at.push((k, mode));
     }
+    /// operations k, k+1, .., k+n-1 fail once each (a call that is tried again at once fails n times in a row)
+    pub fn fail_burst(&self, k: u64, n: u64) {
+        for i in 0..n {
+            self.fail_at(k + i, FaultMode::OneShot);
+        }
+    }
+    pub fn set_fault_kind(&self, kind: io::ErrorKind) {
+        self.0.borrow_mut().fault_kind = kind;
+    }
     pub fn set_chunking(&self, c: Chunking) {
         self.0.borrow_mut().chunking = c;
     }
@@ -152,7 +164,7 @@ impl DevInner {
                 let call = self.call;
                 self.log.push(Op::Failed { call, what });
             }
-            Err(io::Error::new(io::ErrorKind::Other, INJECTED))
+            Err(io::Error::new(self.fault_kind, INJECTED))
         } else {
             Ok(())
         }
